@@ -124,7 +124,15 @@ pub fn c01(j: &mut Judge, v: &StepView) {
         }
         _ => false,
     };
-    if overlap {
+    let entangled = ask_ids.iter().any(|i| j.tracker.asks.get(i).map(|t| t.entangled).unwrap_or(false))
+        || bid_ids.iter().any(|i| j.tracker.bids.get(i).map(|t| t.entangled).unwrap_or(false));
+    let first_entanglement = ask_ids.iter().all(|i| j.tracker.asks.get(i).map(|t| t.entangle_count <= 1).unwrap_or(true))
+        && bid_ids.iter().all(|i| j.tracker.bids.get(i).map(|t| t.entangle_count <= 1).unwrap_or(true));
+    if entangled && !(overlap && first_entanglement) {
+        // per-order attribution was lost in an earlier match over overlapping denominations;
+        // the per-denomination identity above still covers these orders
+        j.label("per-order-check-skipped-entangled");
+    } else if overlap {
         j.label("match-denominations-overlap");
         let mut real = BTreeMap::new();
         let mut want = BTreeMap::new();
